@@ -23,9 +23,11 @@ Here is a semantic property of verif that should hold:
 Your task: write a *realistic* change to the repository's source (the kind of slip a maintainer could make while refactoring, optimising or fixing something else; 1-15 changed lines, in the non-test source files only) that BREAKS this property, while the code still imports and the existing test-suite result does not change. The change must need something specific to manifest — an unusual input, a particular combination of options, a multi-step sequence of calls, or two cooperating sites that each look fine alone — not something ordinary use would expose at once (not "every run crashes", not "every score is wrong").{(' Suggested area (you may choose otherwise): ' + hint) if hint else ''}
 
 Requirements:
-1. First record the baseline: `cd {wt} && PYTHONPATH={wt} /venv/bin/python -m pytest -q -p no:cacheprovider --timeout=900 verif/tests 2>&1 | tail -15` (expect 174 passed, 8 failed at HEAD; the 8 failures are pre-existing). After your change the set of passing/failing tests must be exactly the same.
-2. Write a demonstration script {wt}/seed_out/demo.py (stand-alone; it creates whatever input files it needs in a temp dir, uses only the public API or `verif.driver.run`/the command line) that exits 0 on the unchanged code and exits non-zero (assertion failure showing the broken property) with your change applied. Verify both directions yourself (use `git stash` / `git stash pop` or `git diff > patch; git checkout .; ...`).
+1. First record the baseline: `cd {wt} && PYTHONPATH={wt} /venv/bin/python -m pytest -q -p no:cacheprovider --timeout=900 verif/tests 2>&1 | tail -15` (expect 180 passed, 2 failed at HEAD; the 2 failures (test_bsdecomp, test_cond) are pre-existing). After your change the set of passing/failing tests must be exactly the same.
+2. Write a demonstration script {wt}/seed_out/demo.py (stand-alone; it creates whatever input files it needs in a temp dir, uses only the public API or `verif.driver.run`/the command line) that exits 0 on the unchanged code and exits non-zero (assertion failure showing the broken property) with your change applied. Verify both directions yourself (use `git diff > /tmp/.../patch; git checkout -- .; ... ; git apply patch` -- do NOT use `git stash`: the stash is shared between all worktrees of the repository and other agents work in sibling worktrees).
 3. Save the change as {wt}/seed_out/patch.diff (output of `git diff` from the worktree root, must apply with `git apply` at the root of a clean checkout of the same commit) and leave the worktree's tracked files UNCHANGED at the end (git checkout -- . ; `git status --short` must show only seed_out/).
 4. Write {wt}/seed_out/meta.json: {{"property": "{p['id']}", "summary": "<one sentence: what the change does>", "needs": "<what specific input/sequence/option combination it needs to manifest>", "files_changed": [...], "ran": ["<commands you ran to confirm>"], "tests_before": "<pass/fail counts>", "tests_after": "<pass/fail counts>"}}
+
+In demo.py do not assert anything about the path verif is imported from.
 
 Report back briefly: the summary, what it needs to manifest, and confirmation that demo.py passes without and fails with the patch and that the test-suite result is unchanged.""")
